@@ -136,9 +136,40 @@ func matchCompTimeRange(start, end time.Time, comp *ical.Component) (bool, error
 		return false, err
 	}
 	if rset != nil {
-		// TODO we can only set inclusive to true or false, but really the
-		// start time is inclusive while the end time is not :/
-		return len(rset.Between(start, end, true)) > 0, nil
+		// Every instance lasts as long as the first one
+		var dur time.Duration
+		if comp.Name == ical.CompEvent {
+			event := ical.Event{comp}
+			eventStart, err := event.DateTimeStart(start.Location())
+			if err != nil {
+				return false, err
+			}
+			eventEnd, err := event.DateTimeEnd(end.Location())
+			if err != nil {
+				return false, err
+			}
+			if eventEnd.After(eventStart) {
+				dur = eventEnd.Sub(eventStart)
+			}
+		}
+
+		// An instance [t, t+dur) overlaps the range iff start < t+dur and
+		// end > t, a zero-length one iff start <= t and end > t. A zero
+		// start or end means that side of the range is unbounded.
+		after := start.Add(-dur)
+		if end.IsZero() {
+			return !rset.After(after, dur == 0).IsZero(), nil
+		}
+		for _, t := range rset.Between(after, end, true) {
+			if !t.Before(end) {
+				continue
+			}
+			if dur > 0 && !t.After(after) {
+				continue
+			}
+			return true, nil
+		}
+		return false, nil
 	}
 
 	// TODO handle more than just events
